@@ -2,7 +2,10 @@
 Theorems (Properties/C05.v): LNot_sem, LNot_head, restrict_sem, restrict_alpha, restrict_ctl_spec.
 Correspondence (syntactic, the tightest tie available): the tree returned by
 get_equivalent_restricted_formula() / LNot on live objects equals the model's tree (atom names compared byte-exactly), and every node
-of the result belongs to the language module of the formula that was rewritten."""
+of the result belongs to the language module of the formula that was rewritten.
+Besides single formulas (built, rewritten, dropped) there are TALL formulas (towers of height 9..129: tall_stream) and LIVE sessions
+(session_stream / session_obs): several formulas and all their results alive together, every object rewritten twice - the rewriting is
+a function of the formula alone, whatever else is alive and however often it was asked before."""
 from common import *
 from mccheck import *
 LEVEL = 'proof'
@@ -127,6 +130,13 @@ def ren(f, m):
     return (f[0],) + tuple(ren(g, m) for g in f[1:])
 
 
+def fh5(f):
+    """height of a tree (a connective without operands is a leaf)"""
+    if f[0] in ('true', 'false', 'ap') or len(f) == 1:
+        return 0
+    return 1 + max(fh5(g) for g in f[1:])
+
+
 def nary_widths(f, h):
     for g in subformulas(f):
         if g[0] in NARY:
@@ -213,7 +223,91 @@ def _structures(names):
     return _SEARCH_N[key]
 
 
+def det_eval(n, succ, labels, f, memo):
+    """states of a DETERMINISTIC structure (every state has exactly one successor, so exactly one path leaves each state and A g = E g
+    = g on it) whose path satisfies f: X by the successor, U/F as least and R/G as greatest fixed points along the path.  Linear in the
+    size of f: used for formulas that are too tall for the reference evaluator."""
+    if f in memo:
+        return memo[f]
+    t = f[0]
+    allst = frozenset(range(n))
+    pre = lambda Z: frozenset(s_ for s_ in range(n) if succ[s_] in Z)
+    if t == 'true':
+        v = allst
+    elif t == 'false':
+        v = frozenset()
+    elif t == 'ap':
+        v = frozenset(s_ for s_ in range(n) if f[1] in labels[s_])
+    else:
+        gs = [det_eval(n, succ, labels, g, memo) for g in f[1:]]
+        if t == 'not':
+            v = allst - gs[0]
+        elif t == 'or':
+            v = frozenset().union(*gs)
+        elif t == 'and':
+            v = allst.intersection(*gs)
+        elif t == 'imp':
+            v = (allst - gs[0]) | gs[1]
+        elif t in ('A', 'E'):
+            v = gs[0]
+        elif t == 'X':
+            v = pre(gs[0])
+        elif t in ('F', 'U'):
+            a, b = (allst, gs[0]) if t == 'F' else gs
+            v = b
+            while True:
+                w = b | (a & pre(v))
+                if w == v:
+                    break
+                v = w
+        else:   # G, R
+            a, b = (frozenset(), gs[0]) if t == 'G' else gs
+            v = allst
+            while True:
+                w = b & (a | pre(v))
+                if w == v:
+                    break
+                v = w
+    memo[f] = v
+    return v
+
+
+def det_counterexample(f, r):
+    """a deterministic structure (1 state with a self loop, 2 states, 3-state lassos; labels from the atom names of f and r) and a
+    state whose only path tells f from r"""
+    names = sorted(fatoms(f) | fatoms(r))
+    r0 = random.Random(11)
+    if len(names) <= 3:
+        labsets = [[a for i, a in enumerate(names) if (m >> i) & 1] for m in range(1 << len(names))]
+    else:
+        labsets = [[], list(names)] + [[a] for a in names[:12]] + [[a for a in names if r0.random() < 0.5] for _ in range(12)]
+    shapes = [(1, (0,))] + [(2, (a, b)) for a in (0, 1) for b in (0, 1)] + [(3, (1, 2, c)) for c in (0, 1, 2)]
+    t_end = time.time() + 3.0
+    for n, succ in shapes:
+        combos = list(itertools.product(labsets, repeat=n))
+        if len(combos) > 256:
+            combos = r0.sample(combos, 256)
+        for labs in combos:
+            if time.time() > t_end:
+                return None
+            memo = {}
+            try:
+                a, b = det_eval(n, succ, labs, f, memo), det_eval(n, succ, labs, r, memo)
+            except RecursionError:
+                return None
+            if a != b:
+                kd = {'S': list(range(n)), 'S0': [], 'R': [(i, succ[i]) for i in range(n)], 'L': {i: list(labs[i]) for i in range(n)}}
+                return {'kripke': kd_json(kd), 'original': fstr(f), 'rewritten': fstr(r), 'semantics': 'deterministic structure (one path per state)',
+                        'states_original': sorted(a), 'states_rewritten': sorted(b)}
+    return None
+
+
 def semantic_counterexample(f, r, rng):
+    cex = semantic_counterexample_ref(f, r, rng)
+    return cex if cex is not None else det_counterexample(f, r)
+
+
+def semantic_counterexample_ref(f, r, rng):
     """search structures for a state where f and r differ under the reference semantics (see _structures); the structures are labelled
     with the atom names of f AND of r (a rewriting that renames an atom is refuted by a state labelled with only one of the two names).
     Path formulas are compared under both quantifiers (A f vs A r, E f vs E r)."""
@@ -373,6 +467,276 @@ def wide_stream(rng, thorough):
     return out
 
 
+TALL_SHAPES = ('neg', 'temp', 'neg-temp', 'alt', 'mid', 'rand', 'rand-small')
+
+
+def _layer(rng, logic, kind, x, fixed=None):
+    """one more level on top of x: kind 'N' negation, 'T' a unary temporal level (CTL: a quantified one), 'B' a binary connective or
+    binary temporal operator with a leaf on the other side"""
+    s = rand_leaf5(rng, ('p', 'q'))
+    if kind == 'N':
+        return ('not', x)
+    if kind == 'T':
+        if logic == 'CTL':
+            q, o = fixed or (rng.choice('AE'), rng.choice('XFG'))
+            return (q, (o, x))
+        o = fixed or rng.choice(['X', 'F', 'G'] + (['A', 'E'] if logic == 'CTLS' else []))
+        return (o, x)
+    c = rng.choice(['or', 'and', 'imp', 'imp2', 'U', 'R'])
+    if c in ('or', 'and'):
+        return (c, s, x) if rng.random() < 0.5 else (c, x, s)
+    if c == 'imp':
+        return ('imp', x, s)
+    if c == 'imp2':
+        return ('imp', s, x)
+    g = (c, s, x) if rng.random() < 0.5 else (c, x, s)
+    return (rng.choice('AE'), g) if logic == 'CTL' else g
+
+
+def tower(rng, logic, h, shape):
+    """a formula of height >= h (h levels for the path logics) that is a tower of unary levels over a leaf or a small formula"""
+    base = rand_of(logic, rng, 1) if shape == 'rand-small' else ('ap', rng.choice('pq'))
+    fixed = (rng.choice('AE'), rng.choice('XFG')) if logic == 'CTL' else rng.choice('XFG')
+    f = base
+    if logic == 'CTL' and shape in ('neg-temp', 'mid'):
+        h = (h + 1) // 2 + 1      # a quantified temporal level is two levels of the tree
+    if shape == 'neg':
+        kinds = ['N'] * h
+    elif shape == 'temp':
+        kinds = ['T'] * h
+    elif shape == 'neg-temp':
+        k = rng.choice((1, 1, 2, 3))
+        kinds = ['T'] * (h - k) + ['N'] * k
+    elif shape == 'alt':
+        kinds = ['T', 'N'] * ((h + 1) // 2)
+    elif shape == 'mid':
+        m = rng.randint(1, 6)
+        a = rng.randint(0, max(0, h - m))
+        kinds = ['T'] * a + ['N'] * m + ['T'] * max(0, h - m - a)
+    else:
+        kinds, nb = [], 0
+        for _ in range(h):
+            k = rng.choice('NNTTTB')
+            if k == 'B':
+                nb += 1
+                if nb > 2:      # the rewriting of some binary operators copies an operand: at most two such levels in a tower
+                    k = 'T'
+            kinds.append(k)
+    for k in kinds:
+        f = _layer(rng, logic, k, f, fixed if shape in ('temp', 'neg-temp', 'alt', 'mid') else None)
+        if fh5(f) >= h and shape not in ('neg-temp', 'mid'):
+            break
+    return f
+
+
+def tall_stream(rng, thorough):
+    """TALL formulas: towers of every height 9..40 and of heights around 48, 64, 100, 128 (thorough: to 200) in each logic - pure
+    negation chains, one temporal operator repeated, a negation (chain) on top of / in the middle of a temporal tower, alternations,
+    random towers with binary levels.  A rewriting that treats tall formulas (or long negation chains) differently is seen here."""
+    heights = list(range(9, 41)) + [48, 63, 64, 65, 66, 96, 100, 127, 128, 129] + ([160, 200] if thorough else [])
+    out = []
+    for logic in LOGICS:
+        for h in heights:
+            for shape in TALL_SHAPES:
+                for _ in range(3 if thorough else 1):
+                    f = tower(rng, logic, h, shape)
+                    out.append((logic, f))
+                    if logic == 'LTL' and rng.random() < 0.3:
+                        out.append((logic, ('A', f)))
+    return out
+
+
+# ----------------------------------------------------------------------------------------------------------------------------------
+# LIVE sessions: several formulas (and their results) alive at the same time, every object rewritten twice
+# ----------------------------------------------------------------------------------------------------------------------------------
+def logics_of(f):
+    out = ['CTLS']
+    if is_ctl_state(f):
+        out.append('CTL')
+    if is_ltl_path(f) or is_ltl_state(f):
+        out.append('LTL')
+    return out
+
+
+def expand_refs(t, trees):
+    if t[0] == 'ref':
+        return trees[t[1]]
+    if t[0] in ('true', 'false', 'ap'):
+        return t
+    return (t[0],) + tuple(expand_refs(g, trees) for g in t[1:])
+
+
+def build_live(t, L, objs):
+    """python object of tree t; a ('ref', i) leaf is the LIVE object of item i of the session (shared, not rebuilt)"""
+    if t[0] == 'ref':
+        return objs[t[1]]
+    if t[0] in ('true', 'false', 'ap'):
+        return to_py(t, L)
+    return getattr(L, PYNAME[t[0]])(*[build_live(g, L, objs) for g in t[1:]])
+
+
+def subst_at(f, path, g):
+    if not path:
+        return g
+    i = path[0]
+    return f[:i] + (subst_at(f[i], path[1:], g),) + f[i + 1:]
+
+
+def paths_of(f, pre=()):
+    yield pre, f
+    if f[0] not in ('true', 'false', 'ap'):
+        for i in range(1, len(f)):
+            yield from paths_of(f[i], pre + (i,))
+
+
+def printed(logic, g):
+    return str(to_py(g, lang_module(logic)))
+
+
+def session_stream(rng, pool, thorough):
+    """sessions = lists of (logic, tree-with-refs).  Kinds:
+    cross-logic : the SAME tree as a formula of 2-3 logics, in random order (equal printed forms, equal class names, different modules)
+    printed-name: a formula and its copy in which one subformula g is replaced by the ATOM whose name is the printed form of g (the two
+                  formulas print alike and mean different things), in both orders; sometimes across logics
+    repeat      : one formula (every object of every session is rewritten twice, the second time after the whole session ran once)
+    compose     : two formulas, then a formula built FROM THEIR LIVE OBJECTS (not f, f op g, a temporal operator over them)"""
+    k = 4 if thorough else 1
+    out = []
+    small = [it for it in pool if fsize(it[1]) <= 40]
+    pl = lambda: rand_path5(rng, rng.randint(1, 3))
+    for _ in range(350 * k):
+        r = rng.random()
+        f = rand_pl5(rng, rng.randint(1, 3)) if r < 0.35 else rng.choice(small)[1]
+        ls = logics_of(f)
+        if len(ls) < 2:
+            continue
+        rng.shuffle(ls)
+        out.append(('cross-logic', [(l, f) for l in ls]))
+    for _ in range(450 * k):
+        logic, f = rng.choice(small)
+        # positions where an atom may stand (the copy is still a formula of the logic)
+        cands = [(pth, g) for pth, g in paths_of(f) if g[0] != 'ap' and pth and logic in logics_of(g)
+                 and logic in logics_of(subst_at(f, pth, ('ap', 'p')))]
+        if not cands:
+            continue
+        pth, g = rng.choice(cands)
+        name = printed(logic, g)
+        fa = subst_at(f, pth, ('ap', name))
+        l2 = logic
+        if rng.random() < 0.25:
+            both = [l for l in logics_of(f) if l in logics_of(fa)]
+            l2 = rng.choice(both)
+        pair = [(l2, fa), (logic, f)]
+        if rng.random() < 0.4:
+            pair.reverse()
+        out.append(('printed-name', pair))
+    for logic, f in rng.sample(pool, min(len(pool), 1200 * k)):
+        out.append(('repeat', [(logic, f)]))
+    for _ in range(300 * k):
+        logic = rng.choice(LOGICS)
+        a, b = rand_of(logic, rng, rng.randint(1, 3)), rand_of(logic, rng, rng.randint(1, 3))
+        x, y = ('ref', 0), ('ref', 1)
+        ops = [('not', x), ('or', x, y), ('and', y, x, x), ('imp', x, y), ('not', ('not', y))]
+        if logic == 'CTL':
+            ops += [(q, (o, x)) for q in 'AE' for o in 'XFG'] + [(q, (o, x, y)) for q in 'AE' for o in 'UR']
+        else:
+            ops += [(o, x) for o in 'XFG'] + [(o, x, y) for o in 'UR'] + [(o, y, x) for o in 'UR']
+            if logic == 'CTLS':
+                ops += [('A', x), ('E', ('U', x, y)), ('A', ('R', y, x))]
+        sess = [(logic, a), (logic, b), (logic, rng.choice(ops))]
+        if rng.random() < 0.5:
+            sess.append((logic, rng.choice(ops + [('not', ('ref', 2)), ('or', ('ref', 2), x)])))
+        out.append(('compose', sess))
+    return out
+
+
+def rand_pl5(rng, d):
+    if d == 0 or rng.random() < 0.2:
+        return rand_leaf5(rng, ('p', 'q'))
+    t = rng.choice(['not', 'or', 'and', 'imp'])
+    if t == 'not':
+        return (t, rand_pl5(rng, d - 1))
+    if t == 'imp':
+        return (t, rand_pl5(rng, d - 1), rand_pl5(rng, d - 1))
+    return rand_nary5(rng, t, lambda: rand_pl5(rng, d - 1), lambda: rand_pl5(rng, min(d - 1, 1)))
+
+
+def session_trees(sess):
+    trees = []
+    for logic, t in sess:
+        trees.append(expand_refs(t, trees))
+    return trees
+
+
+def session_obs(sess):
+    """runs the session on live objects: every formula object and EVERY RESULT stays referenced until the end.  Pass 1: build item i,
+    rewrite it, LNot it.  Pass 2: rewrite and LNot the same objects again.  Returns per item the two observations (as impl_obs)."""
+    from pyModelChecking.language import LNot
+    alive, objs, recs = [], [], []
+
+    def one(fn):
+        box = {}
+
+        def go():
+            x = fn()
+            alive.append(x)
+            box['l'] = sorted(langs_in(x))
+            return tree_of(x)
+        return call(go), box.get('l')
+    for logic, t in sess:
+        o = build_live(t, lang_module(logic), objs)
+        objs.append(o)
+        rec = {'s0': str(o)}
+        recs.append(rec)
+        rec['p1'] = (one(o.get_equivalent_restricted_formula), one(lambda: LNot(o)), str(o) == rec['s0'])
+    for o, rec in zip(objs, recs):
+        rec['p2'] = (one(o.get_equivalent_restricted_formula), one(lambda: LNot(o)), str(o) == rec['s0'])
+    out = []
+    for rec in recs:
+        out.append([(p[0][0], p[1][0], p[2], p[0][1], p[1][1]) for p in (rec['p1'], rec['p2'])])
+    del alive[:]
+    return out
+
+
+def judge_session(sess, obs, outs):
+    """per item: the differences of the first and of the second pass from the model (the model is a function: same answer both times)"""
+    trees = session_trees(sess)
+    res = []
+    for i, ((logic, _), f) in enumerate(zip(sess, trees)):
+        m_r, m_ln = model_obs(logic, f, outs[2 * i], outs[2 * i + 1])
+        b1 = judge(logic, f, obs[i][0], m_r, m_ln)
+        b2 = judge(logic, f, obs[i][1], m_r, m_ln)
+        res.append((logic, f, m_r, m_ln, b1, b2))
+    return res
+
+
+def session_violation(R, kind, sess, i, obs, jd, budget, replayed=False):
+    logic, f, m_r, m_ln, b1, b2 = jd
+    o = obs[i][0] if b1 else obs[i][1]
+    bad = b1 if b1 else b2
+    cex = None
+    if budget[0] > 0:
+        t_s = time.time()
+        cex = witness(f, o[0], o[1], bad, R.rng)
+        budget[0] -= time.time() - t_s
+    R.violation('%srewriting in a live session (%s) differs from the proved model: first pass [%s] second pass on the same object [%s]'
+                % ('replayed: ' if replayed else '', kind, ','.join(b1), ','.join(b2)),
+                {'session_kind': kind, 'session': [[l, t] for l, t in sess], 'index': i, 'logic': logic, 'formula': f, 'formula_str': fstr(f),
+                 'alive_before': ['%s: %s' % (l, fstr(t)) for (l, _), t in zip(sess[:i], session_trees(sess))],
+                 'impl_first': {'restricted': obs[i][0][0], 'LNot': obs[i][0][1], 'modules': [obs[i][0][3], obs[i][0][4]]},
+                 'impl_second': {'restricted': obs[i][1][0], 'LNot': obs[i][1][1], 'modules': [obs[i][1][3], obs[i][1][4]]},
+                 'model_restricted': m_r, 'model_LNot': m_ln, 'semantic_counterexample': cex},
+                no_input=(cex is None and not any(b in CONCRETE for b in bad)))
+    return cex
+
+
+def session_cmds(sess):
+    cmds = []
+    for (logic, _), f in zip(sess, session_trees(sess)):
+        cmds.extend(model_cmds(logic, f))
+    return cmds
+
+
 def build_items(R):
     rng = R.rng
     items = []   # (logic, tree)
@@ -395,6 +759,8 @@ def build_items(R):
     wide = wide_stream(rng, R.thorough)
     items.extend(wide)
     pool = list(items)
+    tall = tall_stream(rng, R.thorough)
+    items.extend(tall)
     for logic, f in rng.sample(pool, min(len(pool), 6000 if R.thorough else 700)):
         m = dict(zip(('p', 'q'), rng.sample(EXOTIC, 2)))
         items.append((logic, ren(f, m)))
@@ -414,7 +780,8 @@ def build_items(R):
         if rng.random() < 0.3:     # wide connectives over distinct atoms: every atom gets a non-ASCII name
             m.update({'p%d' % i: 'p\u00e8%d' % i for i in range(1, 34)})
         items.append((logic, ren(f, m)))
-    return items, {'base': n_base, 'wide': len(wide), 'exotic_names': n0 - n_base - len(wide), 'collapsing_names': len(items) - n0}
+    return items, pool, {'base': n_base, 'wide': len(wide), 'tall': len(tall), 'exotic_names': n0 - n_base - len(wide) - len(tall),
+                         'collapsing_names': len(items) - n0}
 
 
 def run(R):
@@ -425,14 +792,27 @@ def run(R):
               'under ascii-ignore, NFC/NFKC, case folding, stripping (names reach the model as their UTF-8 bytes); compared: tree of '
               'get_equivalent_restricted_formula() and of LNot vs model (atom names byte-exact), language module of every node of both results = module of the '
               'input, restricted-alphabet membership recomputed on the python object, no leading double negation, input unchanged; witnesses: structures '
-              'labelled with the atom names of the formula and of its rewriting; non-trivial = the rewrite changes the tree')
+              'labelled with the atom names of the formula and of its rewriting (tall formulas: deterministic structures, one path per state, evaluated by '
+              'fixed points along the path); TALL stream: towers of every height 9..40 and 48,63-66,96,100,127-129 per logic (negation chains, one '
+              'temporal operator repeated, negations on top of / inside a temporal tower, alternations, random towers with binary levels); LIVE sessions: '
+              'formulas and ALL their results kept alive together and every object rewritten and LNot-ed TWICE (second pass after the whole session), '
+              'kinds cross-logic (same tree as CTL/LTL/CTL* formula, any order), printed-name (a formula and its copy with a subformula replaced by the '
+              'atom named like its printed form), repeat (one pool formula), compose (formulas built from the live objects of earlier ones); each pass '
+              'is compared with the model like a single case; non-trivial = the rewrite changes the tree')
     rng = R.rng
-    items, dist = build_items(R)
+    items, pool, dist = build_items(R)
     cmds, meta = [], []
     for logic, f in items:
         meta.append((logic, f, impl_obs(logic, f)))
         cmds.extend(model_cmds(logic, f))
+    # live sessions (several formulas and results alive together, every object rewritten twice)
+    sessions = session_stream(rng, pool, R.thorough)
+    sobs = []
+    for kind, sess in sessions:
+        sobs.append(session_obs(sess))
+        cmds.extend(session_cmds(sess))
     outs = model_batch_parallel(cmds)
+    souts = outs[2 * len(items):]
     hw, nonascii = {}, 0
     differing = []
     for i, (logic, f, obs) in enumerate(meta):
@@ -476,14 +856,64 @@ def run(R):
                      'impl_LNot': ln, 'model_LNot': m_ln, 'impl_modules': {'restricted': obs[3], 'LNot': obs[4]},
                      'semantic_counterexample': cex},
                     no_input=(cex is None and not any(b in CONCRETE for b in bad)))
+    # sessions
+    pos, hk, hh = 0, {}, {}
+    sdiff = []
+    for (kind, sess), ob in zip(sessions, sobs):
+        n = len(sess)
+        jds = judge_session(sess, ob, souts[pos:pos + 2 * n])
+        pos += 2 * n
+        hk[kind] = hk.get(kind, 0) + 1
+        for i, jd in enumerate(jds):
+            R.evaluations += 1
+            if jd[4] or jd[5]:
+                sdiff.append((kind, sess, i, ob, jd))
+            elif ob[i][0][0][0] == 'ok' and ob[i][0][0][1] != jd[1]:
+                R.nontriv((kind, jd[0], jd[1]))
+    budget = [30.0]
+    # one mutation shows in many sessions: small formulas first, at most 60 reports per kind of session
+    sdiff.sort(key=lambda d: fsize(d[4][1]))
+    nrep = {}
+    for kind, sess, i, ob, jd in sdiff:
+        nrep[kind] = nrep.get(kind, 0) + 1
+        if nrep[kind] <= 60:
+            session_violation(R, kind, sess, i, ob, jd, budget)
+    if any(v > 60 for v in nrep.values()):
+        R.cov['session_differences_not_listed'] = {k_: v - 60 for k_, v in nrep.items() if v > 60}
+    for logic, f in items:
+        h = fh5(f)
+        if h >= 9:
+            b = '9-16' if h <= 16 else '17-32' if h <= 32 else '33-64' if h <= 64 else '65-128' if h <= 128 else '>128'
+            hh[b] = hh.get(b, 0) + 1
+    R.cov['sessions_by_kind'] = hk
+    R.cov['formulas_by_height'] = hh
     R.cov['distribution'] = {l: sum(1 for it in items if it[0] == l) for l in LOGICS}
     R.cov['streams'] = dist
     R.cov['or_and_nodes_by_width'] = {str(k): hw[k] for k in sorted(hw)}
     R.cov['formulas_with_non_ascii_atom'] = nonascii
 
 
+def replay_live(R, d):
+    sess = [(l, detuple(t)) for l, t in d['session']]
+    kind, i = d.get('session_kind', '?'), d['index']
+    ob = session_obs(sess)
+    jds = judge_session(sess, ob, model_batch(session_cmds(sess)))
+    for j, ((l, _), t) in enumerate(zip(sess, session_trees(sess))):
+        print('item %d %s %s: %s' % (j, '*' if j == i else ' ', l, fstr(t)))
+        print('   first  pass: restricted', ob[j][0][0], ' LNot', ob[j][0][1], ' modules', ob[j][0][3], ob[j][0][4])
+        print('   second pass: restricted', ob[j][1][0], ' LNot', ob[j][1][1], ' modules', ob[j][1][3], ob[j][1][4])
+        print('   model      : restricted', jds[j][2], ' LNot', jds[j][3])
+        print('   differs    : first', jds[j][4], ' second', jds[j][5])
+    for j, jd in enumerate(jds):
+        if jd[4] or jd[5]:
+            cex = session_violation(R, kind, sess, j, ob, jd, [30.0], replayed=True)
+            print('witness (item %d):' % j, cex)
+
+
 def replay(R, data):
     d = data['data']
+    if 'session' in d:
+        return replay_live(R, d)
     f = detuple(d['formula'])
     logic = d['logic']
     obs = impl_obs(logic, f)
